@@ -178,6 +178,8 @@ def random_recipe(rng, flat=True, thin=False):
                      "delta_shape": [(128, 4), (256, 8), (1024, 32)][int(rng.integers(0, 3))],
                      "delta_bits": int(rng.integers(0, 29)),
                      "write_stats": bool(rng.random() < 0.6)})
+        if cols[-1]["write_stats"] and j % 2:
+            cols[-1]["omit_null_count"] = True       # min/max without a null count (the field is optional)
     return {"seed": int(rng.integers(0, 2 ** 31)), "flat": True, "row_groups": rgs, "codec": CODECS[int(rng.integers(0, len(CODECS)))], "columns": cols}
 
 
@@ -201,7 +203,7 @@ def make_spec(recipe):
         if rc["type"] in DECIMALS:
             cs["precision"], cs["scale"] = DECIMALS[rc["type"]]
         for k in ("use_dict", "dict_fallback_page", "dict_encoding_id", "encoding", "page_rows", "page_version", "def_plan", "idx_plan", "v2_compressed",
-                  "delta_shape", "write_stats", "dict_extra", "v1_trailing", "min_index_width", "dict_when_empty"):
+                  "delta_shape", "write_stats", "dict_extra", "v1_trailing", "min_index_width", "dict_when_empty", "omit_null_count"):
             if k in rc and rc[k] is not None:
                 cs[k] = rc[k]
         if cs.get("dict_extra"):
@@ -210,6 +212,8 @@ def make_spec(recipe):
         expected[rc["name"]] = [expected_cell(rc["type"], v) for v in rows]
     spec = {"codec": recipe.get("codec", "UNCOMPRESSED"), "columns": cols, "row_groups": list(recipe["row_groups"]),
             "created_by": recipe.get("created_by", "refpq spec-level writer 1.0")}
+    if recipe.get("kv"):
+        spec["kv"] = [tuple(x) for x in recipe["kv"]]
     if recipe.get("pandas_units"):
         # pandas metadata as pyarrow / fastparquet attach it: the frame's resolution may be finer than the stored one, the reader must rescale
         import json
